@@ -8,6 +8,9 @@
 (*                the fixed chunk Pre - reps, state and dictionary persist,   *)
 (*   ctx "state": the same with a state reset (control 0xA0) - the dictionary *)
 (*                persists (a match may be the first symbol), reps/state not  *)
+(*   ctx "afterwrap": a chunk with a dictionary reset (control 0xE0) that     *)
+(*                follows a chunk of MORE output than the dictionary holds -  *)
+(*                declaratively the same as "fresh": a reset forgets all      *)
 (* and the real decoders must return the predicted verdict and bytes.         *)
 EXTENDS Lz, TLC, Json
 
@@ -26,7 +29,7 @@ GMode == IF Known THEN [known |-> TRUE, left |-> 1000, eopmOk |-> FALSE] ELSE Mo
 
 Init == /\ ctx \in Ctxs
         /\ path = <<>>
-        /\ st = CASE ctx = "fresh" -> Start(<<>>, <<0, 0, 0, 0>>, 0, GMode)
+        /\ st = CASE ctx \in {"fresh", "afterwrap"} -> Start(<<>>, <<0, 0, 0, 0>>, 0, GMode)
                   [] ctx = "state" -> Start(PreSt.h, <<0, 0, 0, 0>>, 0, GMode)
                   [] OTHER         -> Start(PreSt.h, PreSt.r, PreSt.s, GMode)
 Next == /\ st.v = "run" /\ Len(path) < MaxSyms
@@ -35,7 +38,7 @@ Next == /\ st.v = "run" /\ Len(path) < MaxSyms
               /\ st' = RunH(st, <<y>>, GMode, EffDict)
               /\ ctx' = ctx
 Spec == Init /\ [][Next]_vars
-H0 == IF ctx = "fresh" THEN 0 ELSE Len(PreSt.h)
+H0 == IF ctx \in {"fresh", "afterwrap"} THEN 0 ELSE Len(PreSt.h)
 Emit == PrintT(<<"PLAN", ToJson([ctx |-> ctx, known |-> Known, syms |-> path', v |-> st'.v,
                                  out |-> SubSeq(st'.h, H0 + 1, Len(st'.h)), r |-> st'.r, s |-> st'.s])>>)
 =============================================================================
